@@ -287,6 +287,14 @@ def quick_ret(x=None, ready_file=None):
     return 5
 
 
+def raise_soon(x=None, ready_file=None):
+    """Tells the harness it has started and dies of an exception right away: the caller meets a worker which is going down."""
+    if ready_file:
+        with open(ready_file, 'w') as f:
+            f.write('r')
+    raise ValueError('dying')
+
+
 # ---- C18: context targets ---------------------------------------------------------------------------------------------------
 def ctx_a(x, tag='a0', exp=1):
     return ['a', tag, x, exp]
